@@ -68,7 +68,11 @@ type sStore struct {
 }
 
 type wiringDecl struct {
-	Kind                      string // unique setidx fkindex fkindexcascade fkcons system link
+	Kind                      string // unique setidx fkindex fkindexcascade fkcons system link rclink
+	// rclink (s9-c16): a REF-COUNTED link collection Store.Field <-> Target.Back (AddRefCountedLinkCollection on both sides).
+	// Not part of the schema text and not modelled (Store/Model.v has no counted links): derive() ignores it, facts()
+	// projects the linked ids (without their counts) as S:<root>:<id>:<field>:<member>; only projections that do not
+	// compare string-set facts of undeclared sets with the model (C16) may use it
 	Store, Field, Target, Back string
 	Nullable                  bool
 	Casc                      string
@@ -312,6 +316,7 @@ type gStore struct {
 	symbols map[string]boltz.EntitySymbol
 	sets    map[string]boltz.EntitySetSymbol
 	links   map[string]boltz.LinkCollection
+	rc      map[string]boltz.RefCountedLinkCollection // rclink declarations (local field -> collection); nil when the wiring has none
 	uidx    map[string]boltz.ReadIndex    // field key -> read side of the unique index declared on this store
 	sidx    map[string]boltz.SetReadIndex // set field -> read side of the set index declared on this store
 }
@@ -442,7 +447,7 @@ func openHarnessDb(w *wiring, dir string) (*harnessDb, error) {
 			if d.Back != "" {
 				backrefs[d.Target+"."+d.Back] = d.Store
 			}
-		case "link":
+		case "link", "rclink":
 			backrefs[d.Store+"."+d.Field] = d.Target
 			backrefs[d.Target+"."+d.Back] = d.Store
 		}
@@ -523,6 +528,16 @@ func openHarnessDb(w *wiring, dir string) (*harnessDb, error) {
 			os := h.stores[d.Target]
 			gs.links[d.Field] = gs.AddLinkCollection(gs.sets[d.Field], os.sets[d.Back])
 			os.links[d.Back] = os.AddLinkCollection(os.sets[d.Back], gs.sets[d.Field])
+		case "rclink":
+			os := h.stores[d.Target]
+			if gs.rc == nil {
+				gs.rc = map[string]boltz.RefCountedLinkCollection{}
+			}
+			if os.rc == nil {
+				os.rc = map[string]boltz.RefCountedLinkCollection{}
+			}
+			gs.rc[d.Field] = gs.AddRefCountedLinkCollection(gs.sets[d.Field], os.sets[d.Back])
+			os.rc[d.Back] = os.AddRefCountedLinkCollection(os.sets[d.Back], gs.sets[d.Field])
 		}
 	}
 	for _, def := range w.Stores {
@@ -954,7 +969,7 @@ func (h *harnessDb) facts() []string {
 	}
 	for _, d := range h.w.Script {
 		switch d.Kind {
-		case "link":
+		case "link", "rclink":
 			addChildSet(d.Store, d.Field)
 			addChildSet(d.Target, d.Back)
 		case "fkindex", "fkindexcascade":
